@@ -17,7 +17,7 @@
  "name": "count_tags",
  "props": ["C03"],
  "level": "U",
- "tier": "wip",
+ "tier": "quick",
  "harness": "h_count_tags",
  "enforce": ["count_tags"],
  "replace": ["memcpy"],
@@ -67,7 +67,7 @@
  "name": "count_tags_debugfs",
  "props": ["C03"],
  "level": "U",
- "tier": "wip",
+ "tier": "quick",
  "harness": "h_count_tags",
  "enforce": ["count_tags"],
  "replace": ["memcpy"],
